@@ -1,5 +1,6 @@
 """C06 -- the client never swallows or mistypes a server-reported error."""
 import itertools
+import copy
 import json
 
 from harness.core import pipeline, gallina as G, values as V, env
@@ -113,7 +114,10 @@ class Main(pipeline.Stream):
         cases = []
         errors = error_pool()
         results = RESULTS_QUICK if tier == "quick" else RESULTS_ALL
-        paths = [("check",), ("proxy",), ("notify",), ("multi", 0, 0), ("multi", 2, 1), ("iter", 1, 1)]
+        # "...2": the same reply looked at a second time (the same reply object checked again, the same position of the batch
+        # results read again, the results iterated again): the statement holds for every look, the outcome judged is the second
+        paths = [("check",), ("proxy",), ("notify",), ("multi", 0, 0), ("multi", 2, 1), ("iter", 1, 1),
+                 ("check2",), ("multi2", 1, 1), ("iter2", 1, 0)]
         for e, env_form, res in itertools.product(errors, ENVELOPES, results):
             reply = build_reply(env_form, e, res)
             for p in paths:
@@ -134,8 +138,12 @@ class Main(pipeline.Stream):
 
     def run_impl(self, case):
         J = self.J
-        p, reply = case["path"], case["reply"]
+        p, reply = case["path"], copy.deepcopy(case["reply"])
+        again = p[0].endswith("2")
         if p[0] == "check":
+            return [outcome(lambda: J.check_for_errors(reply))]
+        if p[0] == "check2":
+            outcome(lambda: J.check_for_errors(reply))
             return [outcome(lambda: J.check_for_errors(reply))]
         if p[0] == "proxy":
             proxy = J.ServerProxy("http://localhost/", transport=LoopbackReply(json.dumps(reply)))
@@ -152,18 +160,21 @@ class Main(pipeline.Stream):
         for _ in batch:
             mc.m(1)
         results = mc()
-        if p[0] == "multi":
+        if p[0] in ("multi", "multi2"):
+            if again:
+                outcome(lambda: results[pre])
             return [outcome(lambda: results[pre])]
-        out = []
-        it = iter(results)
-        while True:
-            try:
-                out.append(("ok", next(it)))
-            except StopIteration:
-                break
-            except Exception as ex:   # noqa
-                out.append(("raise", ex))
-                break
+        for _ in range(2 if again else 1):
+            out = []
+            it = iter(results)
+            while True:
+                try:
+                    out.append(("ok", next(it)))
+                except StopIteration:
+                    break
+                except Exception as ex:   # noqa
+                    out.append(("raise", ex))
+                    break
         return out
 
     # ---------------------------------------------------------------- oracle (from the statement)
@@ -179,7 +190,7 @@ class Main(pipeline.Stream):
 
     def oracle(self, case, obs):
         J = self.J
-        reply, p = case["reply"], case["path"]
+        reply, p = case["reply"], (case["path"][0].rstrip("2"),) + tuple(case["path"][1:])
         if p[0] == "iter":
             if len(obs) <= p[1]:
                 return ("C06:iteration-stops-early", "iteration stopped before position %d" % p[1])
@@ -222,7 +233,7 @@ class Main(pipeline.Stream):
         return None
 
     def encode(self, case, obs):
-        p, reply = case["path"], case["reply"]
+        p, reply = (case["path"][0].rstrip("2"),) + tuple(case["path"][1:]), case["reply"]
         if isinstance(reply, dict) and "jsonrpc" in reply:
             j = reply["jsonrpc"]
             if isinstance(j, str) and not j.replace(".", "", 1).isdigit():
